@@ -161,6 +161,10 @@ func c01StateSpec(ik, il int) (map[string]interface{}, string) {
 	if ik == 0 && il == 0 {
 		return nil, "none"
 	}
+	if ik < 0 || il < 0 {
+		// a state pattern that is present but has no requirement (statematch {})
+		return map[string]interface{}{}, "{}"
+	}
 	m := map[string]interface{}{}
 	if ik > 0 {
 		m["k"] = c01Req[ik].v()
@@ -172,6 +176,9 @@ func c01StateSpec(ik, il int) (map[string]interface{}, string) {
 }
 
 func c01EventState(ik, il int) (map[interface{}]interface{}, string) {
+	if ik < 0 || il < 0 {
+		return nil, "nil" // an event without any state
+	}
 	m := map[interface{}]interface{}{}
 	if ik > 0 {
 		m["k"] = c01Have[ik].v()
@@ -381,6 +388,17 @@ func c01Index(c *Ctx) {
 	pats := c01Patterns(maxLen)
 	kinds := c01Kinds(3)
 	evs := allEvStates()
+	// a state pattern without requirement (statematch {}) next to rules with and
+	// without requirements, against events with no state at all, an empty state
+	// and states with keys
+	evsNil := append([][2]int{{-1, -1}}, evs...)
+	for _, p := range pats {
+		if c.Mine() {
+			c01IndexCase(c, []c01RuleSpec{{"r1", []string{p}, -1, -1}}, kinds, evsNil)
+			c01IndexCase(c, []c01RuleSpec{{"r1", []string{p}, -1, -1}, {"r2", []string{p}, 2, 0}, {"r3", []string{p}, 0, 0}}, kinds, evsNil)
+			c01IndexCase(c, []c01RuleSpec{{"r1", []string{p}, 2, 1}, {"r2", []string{p}, -1, -1}}, kinds, evsNil)
+		}
+	}
 	// single rule, one pattern, every state spec
 	for _, p := range pats {
 		for ik := range c01Req {
